@@ -58,13 +58,13 @@ impl Property for C11 {
     fn cases(&self, tier: Tier) -> u64 {
         match tier {
             Tier::Quick => 6_000,
-            Tier::Thorough => 200_000,
+            Tier::Thorough => 6_000_000,
         }
     }
     fn min_nontrivial(&self, tier: Tier) -> u64 {
         match tier {
             Tier::Quick => 1_500,
-            Tier::Thorough => 50_000,
+            Tier::Thorough => 1_500_000,
         }
     }
     fn rule(&self) -> &'static str {
